@@ -589,6 +589,84 @@ fn ops_for(w: &World, i: usize, rng: &mut Rng, boundary: bool) -> Vec<String> {
     }
 }
 
+/// in-contract ops on handle i (arguments inside the documented ranges)
+fn valid_ops(w: &World, i: usize) -> Vec<String> {
+    let mut v = Vec::new();
+    let (kind, len, cap) = match w.hs[i].as_ref().unwrap() {
+        H::B(b) => ('B', b.len(), b.len()),
+        H::M(m) => ('M', m.len(), m.capacity()),
+        H::V(x) => ('V', x.len(), x.capacity()),
+    };
+    let mut pts = vec![0, 1.min(len), len / 2, len.saturating_sub(1), len];
+    pts.sort();
+    pts.dedup();
+    match kind {
+        'B' => {
+            for o in ["clone", "uniq", "trymut", "tomut", "tovec", "clear"] {
+                v.push(format!("{} {}", o, i));
+            }
+            for a in &pts {
+                v.push(format!("splitoff {} {}", i, a));
+                v.push(format!("splitto {} {}", i, a));
+                v.push(format!("trunc {} {}", i, a));
+                v.push(format!("adv {} {}", i, a));
+                for b in &pts {
+                    if a <= b {
+                        v.push(format!("slice {} {} {}", i, a, b));
+                    }
+                }
+            }
+        }
+        'M' => {
+            for o in ["clone", "split", "freeze", "tovec", "clear"] {
+                v.push(format!("{} {}", o, i));
+            }
+            v.push(format!("fillspare {} 238", i));
+            v.push(format!("extend {} a1a2a3", i));
+            v.push(format!("extend {} {}", i, hex(&vec![0xb7u8; cap - len + 1])));
+            let mut cpts = pts.clone();
+            cpts.extend([cap, (len + cap) / 2]);
+            cpts.sort();
+            cpts.dedup();
+            for a in &cpts {
+                v.push(format!("splitoff {} {}", i, a));
+                v.push(format!("reserve {} {}", i, a));
+                v.push(format!("reclaim {} {}", i, a));
+                v.push(format!("resize {} {} 85", i, a));
+            }
+            // requests around the size of the allocation the handle lives in
+            if let Some(H::M(m)) = w.hs[i].as_ref() {
+                if let Some(b) = ledger::find_block(m.as_ptr() as usize) {
+                    if m.capacity() > 0 {
+                        let a = b.size;
+                        for n in [a.saturating_sub(len + 1), a.saturating_sub(len), a - len.min(a) + 1, a.saturating_sub(1), a, a + 1] {
+                            v.push(format!("reserve {} {}", i, n));
+                            v.push(format!("reclaim {} {}", i, n));
+                        }
+                    }
+                }
+            }
+            v.push(format!("reserve {} {}", i, cap + 5));
+            v.push(format!("reclaim {} {}", i, cap - len + 1));
+            v.push(format!("reclaim {} {}", i, cap + 1));
+            for a in &pts {
+                v.push(format!("splitto {} {}", i, a));
+                v.push(format!("trunc {} {}", i, a));
+                v.push(format!("adv {} {}", i, a));
+                if *a < len {
+                    v.push(format!("setbyte {} {} 119", i, a));
+                }
+            }
+        }
+        _ => {
+            v.push(format!("fromvec {}", i));
+            v.push(format!("clone {}", i));
+            v.push(format!("trunc {} {}", i, len / 2));
+        }
+    }
+    v
+}
+
 fn random_op(w: &World, rng: &mut Rng) -> String {
     let live = w.live();
     if live.is_empty() || (live.len() < 7 && rng.chance(1, 6)) {
@@ -623,7 +701,24 @@ fn random_op(w: &World, rng: &mut Rng) -> String {
     if rng.chance(1, 10) {
         return format!("drop {}", i);
     }
-    // mostly-valid arguments: pick among all ops, but prefer in-range arguments
+    // mostly-valid arguments (85 %), plus a boundary / out-of-contract stream
+    if rng.chance(85, 100) {
+        let v = valid_ops(w, i);
+        // pick the op kind first, then one of its argument choices, so that kinds are uniform
+        let kinds: Vec<&str> = {
+            let mut k: Vec<&str> = v.iter().map(|o| o.split_whitespace().next().unwrap()).collect();
+            k.sort();
+            k.dedup();
+            k
+        };
+        if let Some(f) = std::env::var("VERIF_FOCUS").ok().filter(|f| kinds.contains(&f.as_str()) && rng.chance(1, 2)) {
+            let of: Vec<&String> = v.iter().filter(|o| o.starts_with(&format!("{} ", f))).collect();
+            return (*rng.pick(&of)).clone();
+        }
+        let kind = *rng.pick(&kinds);
+        let of_kind: Vec<&String> = v.iter().filter(|o| o.split_whitespace().next() == Some(kind)).collect();
+        return (*rng.pick(&of_kind)).clone();
+    }
     let cands = ops_for(w, i, rng, true);
     for _ in 0..4 {
         let c = rng.pick(&cands).clone();
@@ -686,6 +781,54 @@ pub fn run(args: &[String], parity: &str, profile: &str) -> i32 {
                         run_op(&mut w, &o);
                     }
                     end_script(&mut w, &mut rng, a1);
+                }
+            }
+            0
+        }
+        Some("pairs") => {
+            // every starting representation x every in-contract op kind/argument x every second op on
+            // any live handle (sampled in the quick tier), then an epilogue that makes damage visible
+            for (_name, setup) in SETUPS {
+                let mut probe = begin_script(parity, profile);
+                let a1 = ledger::A1_TRACKED_LIVE.load(Ordering::SeqCst);
+                for s in *setup {
+                    run_op(&mut probe, s);
+                }
+                let first: Vec<String> = probe.live().iter().flat_map(|i| valid_ops(&probe, *i)).collect();
+                end_script(&mut probe, &mut rng, a1);
+                for c1 in &first {
+                    // second ops are computed on the state after c1
+                    let mut p2 = begin_script(parity, profile);
+                    let a1 = ledger::A1_TRACKED_LIVE.load(Ordering::SeqCst);
+                    for s in *setup {
+                        run_op(&mut p2, s);
+                    }
+                    run_op(&mut p2, c1);
+                    let second: Vec<String> = p2.live().iter().flat_map(|i| valid_ops(&p2, *i)).collect();
+                    end_script(&mut p2, &mut rng, a1);
+                    for c2 in &second {
+                        if !thorough && !rng.chance(1, 6) {
+                            continue;
+                        }
+                        let a1 = ledger::A1_TRACKED_LIVE.load(Ordering::SeqCst);
+                        let mut w = begin_script(parity, profile);
+                        for s in *setup {
+                            run_op(&mut w, s);
+                        }
+                        run_op(&mut w, c1);
+                        run_op(&mut w, c2);
+                        // epilogue: a third in-contract op, then write into every spare capacity
+                        if !w.live().is_empty() {
+                            let o = random_op(&w, &mut rng);
+                            run_op(&mut w, &o);
+                        }
+                        for i in w.live() {
+                            if matches!(w.hs[i], Some(H::M(_))) {
+                                run_op(&mut w, &format!("fillspare {} 204", i));
+                            }
+                        }
+                        end_script(&mut w, &mut rng, a1);
+                    }
                 }
             }
             0
